@@ -1,10 +1,12 @@
 (* C17 — property theorems only.  All about Model.session / Model.run_op with fixed = true
-   (close() sends through _send, fixes/C17-close-send-failure.patch), the definitions that
-   are extracted and run against the implementation.  [hr] abstracts
+   (fixes/C17-close-send-failure.patch: close() sends through _send;
+   fixes/C17-receive-after-stopped-receiver.patch: close() validates before stopping the
+   receiver, receive on a stopped receiver), the definitions that are extracted and run against
+   the implementation.  [hr] abstracts
    ws_options.default_close_reasons (has the code a default reason?). *)
 From Coq Require Import ZArith NArith List Bool Arith.
 From Falcon.gen Require Import ConstsC17.
-From Falcon.C17 Require Import Model Spec Proofs ProofsSession ProofsTable.
+From Falcon.C17 Require Import Model Spec Proofs ProofsStop ProofsSession ProofsTable ProofsWrapper LinkC18.
 Import ListNotations.
 Open Scope Z_scope.
 
@@ -23,9 +25,11 @@ Theorem C17_session_legal : forall hr c connect_ok mw rt cl fl rs e w,
 Proof. exact session_legal. Qed.
 Print Assumptions C17_session_legal.
 
-(* The invariant behind it is preserved by every single operation, whatever its arguments. *)
+(* The invariant behind it (Proofs.Core: socket state vs. monitor state; Proofs.Stop: a stopped
+   receiver on an ACCEPTED socket means a close was attempted or the disconnect handed over)
+   is preserved by every single operation, whatever its arguments. *)
 Theorem C17_operation_preserves_legality : forall hr c o w r w',
-  Legal w -> run_op true hr c o w = (r, w') -> Legal w'.
+  Legal c w -> run_op true hr c o w = (r, w') -> Legal c w'.
 Proof. exact run_op_legal. Qed.
 Print Assumptions C17_operation_preserves_legality.
 
@@ -36,20 +40,20 @@ Theorem C17_features_only_if_supported : forall f hr c connect_ok mw rt cl fl rs
 Proof. exact features_session. Qed.
 Print Assumptions C17_features_only_if_supported.
 
-(* (state, operation) -> documented error, all operations, all arguments, all states in which
-   the background receiver has not been stopped on a socket that is still ACCEPTED.
-   FULL STATEMENT (false, see C17_misuse_table_refuted_when_receiver_stopped and the known
-   finding C17-receive-after-stopped-receiver-assert): the same without [receiver_ok]. *)
-Theorem C17_misuse_table_partial : forall hr c o w,
-  wf w -> receiver_ok c w ->
-  misuse_ok c (pub_of w) o (fst (run_op true hr c o w)) = true.
+(* (state, operation) -> documented error: all operations, all arguments, all well-formed
+   states, no exception: in particular a receive never fails an internal assertion. *)
+Theorem C17_misuse_table : forall hr c o w,
+  wf w -> misuse_ok c (pub_of w) o (fst (run_op true hr c o w)) = true.
 Proof. exact misuse_table. Qed.
-Print Assumptions C17_misuse_table_partial.
+Print Assumptions C17_misuse_table.
 
-Theorem C17_misuse_table_refuted_when_receiver_stopped :
-  exists c w o, wf w /\ misuse_ok c (pub_of w) o (fst (run_op true (fun _ => false) c o w)) = false.
-Proof. exact misuse_table_refuted_when_receiver_stopped. Qed.
-Print Assumptions C17_misuse_table_refuted_when_receiver_stopped.
+(* The code as found: receive_*() on a socket whose receiver was stopped by a close() that did
+   not mark it CLOSED fails `assert self._pump_task is not None` (the finding; replayed on the
+   implementation: corpus/C17/receive_after_stopped_receiver.json). *)
+Theorem C17_misuse_table_refuted_before_fix :
+  exists c w o, wf w /\ misuse_ok c (pub_of w) o (fst (run_op false (fun _ => false) c o w)) = false.
+Proof. exact misuse_table_refuted_before_fix. Qed.
+Print Assumptions C17_misuse_table_refuted_before_fix.
 
 (* Close codes: exactly the codes >= 1000 outside 1004-1006 and 1015-1999 are accepted; every
    other argument is a ValueError (before anything is sent). *)
@@ -105,9 +109,9 @@ Print Assumptions C17_unexpected_error_code.
    exactly that event; no other operation (except close(), which discards the buffer) touches
    the undelivered events.  (In pass-through mode nothing is ever buffered: hypothesis.) *)
 Theorem C17_payloads_in_order_unchanged : forall k c w r w',
-  require_accepted w = None -> receiver_ok c w ->
+  require_accepted w = None -> receiver_has c w ->
   (cap c = 0%nat -> queue w = [] /\ hand w = None) ->
-  op_recv k c w = (r, w') -> r <> Blocked ->
+  op_recv true k c w = (r, w') -> r <> Blocked ->
   exists e, stream w = e :: stream w' /\ recv_ok k e r = true.
 Proof. exact recv_payload. Qed.
 Print Assumptions C17_payloads_in_order_unchanged.
@@ -117,6 +121,53 @@ Theorem C17_other_operations_keep_stream : forall f hr c o w r w',
   run_op f hr c o w = (r, w') -> stream w' = stream w.
 Proof. exact stream_frame. Qed.
 Print Assumptions C17_other_operations_keep_stream.
+
+(* The close code the application wrapper uses, for EVERY session (send failures included):
+   the trace of the session is the trace at the end of the middleware / routing / responder
+   followed by send() calls that the oracle Spec.wrapper_close_ok accepts for the way the
+   scripts ended (1000 after a normal return, 3000 + status for HTTPError / HTTPStatus incl.
+   unrouted = 404 and missing responder = 405, the configured error code or the fallback for
+   anything else; a further close after a failed one always carries the error code). *)
+Theorem C17_wrapper_close_code_all_sessions : forall hr c mw rt cl fl rs e w,
+  session true hr c true mw rt cl fl = (rs, e, w) ->
+  let '(rs0, e2, w2) := scripts_end true hr c mw rt cl fl in
+  e2 <> Stuck ->
+  exists l, trace w = trace w2 ++ l
+            /\ wrapper_close_ok c fallback_ws_error_code 3000 (fst (cause_of e2)) (snd (cause_of e2)) l = true.
+Proof. exact wrapper_close_session. Qed.
+Print Assumptions C17_wrapper_close_code_all_sessions.
+
+(* the harness classifies "unrouted" / "no responder" as causes 1 / 2: the same verdict as the
+   HTTPError 404 / 405 the model raises for them *)
+Theorem C17_wrapper_cause_unrouted : forall c f o s l,
+  wrapper_close_ok c f o 1 s l = wrapper_close_ok c f o 3 404 l
+  /\ wrapper_close_ok c f o 2 s l = wrapper_close_ok c f o 3 405 l.
+Proof. intros. split; reflexivity. Qed.
+Print Assumptions C17_wrapper_cause_unrouted.
+
+(* C17's sequential abstraction of the background receiver is justified by C18: every state
+   of C18's transition system that is reachable (any capacity >= 1, any client events, any
+   interleaving) and in which the pump is at a resting point projects to a C17 receiver state,
+   and Model.advance is exactly what C18's system does when only the server and the pump run
+   until nothing can move; the state reached is C18-reachable again. *)
+Theorem C17_advance_simulated_by_C18 : forall cp sent ls c w,
+  cp <> 0%nat -> rest_pc (M18.pump (R18.reach cp sent ls)) ->
+  proj_eq (R18.reach cp sent ls) c w -> pump w = true ->
+  exists ls', only_pump_labels ls'
+    /\ quiescent (R18.reach cp sent (ls ++ ls'))
+    /\ proj_eq (R18.reach cp sent (ls ++ ls')) c (advance c w).
+Proof. exact advance_simulated. Qed.
+Print Assumptions C17_advance_simulated_by_C18.
+
+(* ... and the bounds C17's pull builds in (at most capacity queued, parked only when full
+   and then no pull outstanding, no pull after the disconnect) are C18's theorems. *)
+Theorem C17_receiver_bounds_from_C18 : forall cp sent ls,
+  let s := R18.reach cp sent ls in
+  (length (proj_queue s) <= cp)%nat
+  /\ (forall e, M18.pump s = M18.PAwaitPut e -> length (proj_queue s) = cp /\ M18.outst s = 0%nat)
+  /\ (M18.flag s = true -> M18.outst s = 0%nat).
+Proof. exact projected_bounds. Qed.
+Print Assumptions C17_receiver_bounds_from_C18.
 
 (* The code as found (fixed = false): the server raises on the final websocket.close and a
    second websocket.close is sent; replayed on the implementation this was the finding
@@ -152,8 +203,16 @@ Example C17_session_example :
   /\ handed w = true.
 Proof. vm_compute. repeat split; repeat constructor. Qed.
 
-Example C17_legal_nonvacuous : Legal (ws0 [CText 1%N] [SOk]) /\ wf (ws0 [] [])
-  /\ receiver_ok (mkCfg true true 0 1011) (ws0 [] []).
+Example C17_legal_nonvacuous : Legal (mkCfg true true 2 1011) (ws0 [CText 1%N] [SOk]) /\ wf (ws0 [] [])
+  /\ receiver_has (mkCfg true true 0 1011) (ws0 [] []).
 Proof.
   split; [apply legal_init|]. split; [intros _; reflexivity|]. right. left. reflexivity.
 Qed.
+
+(* a C18 state at rest and its C17 projection: capacity 1, two messages pulled, pump parked *)
+Example C17_projection_example :
+  let s := R18.reach 1 [M18.Msg 1; M18.Msg 2; M18.Msg 3]
+                     [M18.LPump; M18.LServer; M18.LPump; M18.LServer; M18.LPump] in
+  rest_pc (M18.pump s) /\ proj_queue s = [CText 1] /\ proj_hand s = Some (CText 2)
+  /\ proj_client s = [CText 3] /\ proj_flag s = None.
+Proof. vm_compute. repeat split; reflexivity. Qed.
